@@ -70,8 +70,13 @@ def gen_case(rng, tier, idx, shard, nshards):
     # stratified enumeration of (type, alias) first, then random
     combos = [("xy", a) for a in XY_ALIASES] + [("indexed", a) for a in BASE_ALIASES] + [("hist", a) for a in BASE_ALIASES] + [("unbinned", a) for a in UNBINNED_ALIASES]
     gi = idx * nshards + shard
-    if gi < 2 * len(combos):
-        ftype, alias = combos[gi % len(combos)]
+    forced_stratum = None
+    if gi < 6:
+        # the implicit switch from the no-errors chi2 ('chi2' given, no source yet) with a model-referenced source first / only
+        ftype, alias = ["xy", "indexed", "hist"][gi % 3], "chi2"
+        forced_stratum = gi // 3
+    elif gi < 6 + 2 * len(combos):
+        ftype, alias = combos[(gi - 6) % len(combos)]
     else:
         ftype, alias = combos[int(rng.integers(0, len(combos)))]
     fid = COST_ALIASES[alias] if ftype != "unbinned" else "unbinned"
@@ -95,7 +100,7 @@ def gen_case(rng, tier, idx, shard, nshards):
     n_src = 0
     if ftype != "unbinned":
         # error-needing costs always get a y source that makes the total positive definite
-        stratum = gi % 7
+        stratum = gi % 7 if forced_stratum is None else forced_stratum
         n_src = int(rng.integers(1, 5)) if fid in NEEDS_ERRORS else int(rng.integers(0, 3))
         yscale = float(np.mean(np.abs(spec.get("y") or spec.get("data") or [10.0])) + 0.5)
         for k in range(n_src):
